@@ -720,6 +720,66 @@ def run_atx(seed, res):
             res.hit({"none": "silent_outcomes", "value": "value_outcomes"}[oc])
             if not ok:
                 res.violation(f"C16/atx/wrong-answer/{oc}", f"send({cmd}): hat reported {line!r}, caller received {raw!r}", wit)
+        # several threads share one hat driver (it carries a lock for that): each gets the answer to its own command
+        import sys as _sys
+        import threading
+        import dali.gear.general as gg_
+        from dali import address as A_
+
+        def reply_by_frame(data):
+            txt = bytes(data).decode("ascii", "replace").strip()
+            try:
+                v16 = int(txt[1:5], 16)
+            except ValueError:
+                return b"N\n"
+            return ("J%02X\n" % ((v16 >> 9) & 0x3F | 0x40)).encode() if (v16 & 0xFF) in (0x90, 0xA0) else b"N\n"
+        import time as _time
+        real_sleep = orig_sleep
+
+        class SlowSerial(FakeSerialModule):
+            # writing to and reading from a serial port takes time: other threads run meanwhile
+            def write(self, data):
+                real_sleep(0)
+                FakeSerialModule.write(self, data)
+                real_sleep(0)
+
+            def read_until(self, sep):
+                real_sleep(0)
+                return FakeSerialModule.read_until(self, sep)
+        mod = SlowSerial(reply_by_frame)
+        A.serial = mod
+        drv = A.SyncDaliHatDriver(LOG=logging.getLogger("atx-test"))
+        wrong = []
+
+        def worker(k):
+            for j in range(60):
+                a = (k * 16 + j) % 64
+                c = gg_.QueryStatus(A_.GearShort(a)) if j % 2 else gg_.DAPC(A_.GearShort(a), j)
+                try:
+                    out = drv.send(c)
+                except Exception as e:      # noqa
+                    wrong.append((k, str(c), repr(e)))
+                    continue
+                if c.response is None:
+                    if out is not None:
+                        wrong.append((k, str(c), repr(out)))
+                elif out is None or out.raw_value is None or out.raw_value.as_integer != (a | 0x40):
+                    wrong.append((k, str(c), None if out is None or out.raw_value is None else out.raw_value.as_integer))
+        old_si = _sys.getswitchinterval()
+        _sys.setswitchinterval(1e-6)
+        try:
+            ts = [threading.Thread(target=worker, args=(k,)) for k in range(6)]
+            for t in ts:
+                t.start()
+            for t in ts:
+                t.join(120)
+        finally:
+            _sys.setswitchinterval(old_si)
+        res.evaluations += 360
+        res.hit("atx_threaded_sends", 360)
+        if wrong:
+            res.violation("C16/atx/threads/wrong-answer", f"6 threads sharing one hat driver: thread {wrong[0][0]} sent {wrong[0][1]} and received "
+                          f"{wrong[0][2]!r} ({len(wrong)} wrong of 360)", {"driver": "atxled"})
     finally:
         A.serial = orig_serial
         A.time.sleep = orig_sleep
